@@ -155,9 +155,9 @@ func (m Model) RunParallel(lines []string, n int) ([]string, error) {
 }
 
 // token encoding (see ocaml/modelrun.ml)
-func tx(b []byte) string { return "x" + hex.EncodeToString(b) }
-func ts(s string) string { return "x" + hex.EncodeToString([]byte(s)) }
-func ti(i int) string    { return "i" + strconv.Itoa(i) }
+func tx(b []byte) string  { return "x" + hex.EncodeToString(b) }
+func ts(s string) string  { return "x" + hex.EncodeToString([]byte(s)) }
+func ti(i int) string     { return "i" + strconv.Itoa(i) }
 func ti64(i int64) string { return "i" + strconv.FormatInt(i, 10) }
 func tb(b bool) string {
 	if b {
